@@ -25,6 +25,8 @@ def run(ctx: Ctx) -> None:
     ctx.rule("R-SUBSHAPE-literals", "only curly quotes (and the em dash in the pattern) as non-ASCII literals")
     ctx.rule("R-REWRITE-store", "text is written only into nodes proven RawText")
     ctx.rule("R-REWRITE-segments", "only RawText segments are mutable")
+    ctx.rule("R-REWRITE-scope", "inline scopes are elements with inline content of their own")
+    ctx.rule("R-REWRITE-autolink", "autolinks print their destination, never the rewritable child text")
     ctx.rule("R-REWRITE-container", "the tree walk cannot reach code / HTML / literal / autolink / ref-def nodes")
     ctx.rule("R-REWRITE-coalesce", "text is coalesced across soft breaks before rewriting")
     ctx.rule("R-REWRITE-tags", "every rewriter protects template tags")
@@ -35,4 +37,4 @@ def run(ctx: Ctx) -> None:
     ctx.run(rewrite.check_rewrite_scope)
     ctx.run(rewrite.check_coalesce_and_tags, {"coalesce"})
     ctx.run(rewrite.check_nonint, ("smartquotes",))
-    ctx.run(optflow.check_consumers)
+    ctx.run(optflow.check_consumers, ("smartquotes",))
